@@ -48,6 +48,10 @@ def gen(tier, rng, reconnect_values=(0,)):
                     cbs = dict(allret)
                     cbs[cb] = mode
                     yield {"callbacks": cbs, "attempts": [{"evs": tr + end}]}
+                    if tr is TRAFFIC[3]:
+                        # the same with callbacks given as partial objects, callable instances, bound methods
+                        form = ("partial", "object", "method")[(CBS.index(cb) + len(mode) + ENDS.index(end)) % 3]
+                        yield {"callbacks": cbs, "attempts": [{"evs": tr + end}], "callback_form": form}
                     if mode in ("raise", "raise-closed") and cb != "on_error":
                         # a raising callback with NO on_error handler: the exception is logged and delivery continues
                         cbs2 = dict(cbs)
@@ -412,6 +416,7 @@ def run(ctx, which="C13"):
         closer_threads(ctx, T, rng)
     if which == "C15":
         external_dispatcher(ctx, T, rng)
+        close_during_wait(ctx, T)
     return T.result(RULES[which], what_is_proved=f"see Properties/{which}.v",
                     trusted_extra=["virtual-time simulation of time/threading/selectors (harness/sim/vtime.py); real select(), TLS records and "
                                    "arbitrary-line preemption are not exercised"])
@@ -421,14 +426,14 @@ RULES = {
     "C13": "7 traffic patterns (text, binary, fragmented with control frames inside, pings, pongs, empty and multi-byte text) x 9 endings "
            "(close frame with/without body, end of stream, reset, protocol error, ill-formed text, ping timeout, second-thread close) with all "
            "callbacks set; 150 (3000) random subsets of callbacks with ws and wss (TLS-pending transport), validation on/off; every callback x "
-           "{raise, close(), KeyboardInterrupt}; refused/rejected; bursts of several frames in one segment followed by silence on plain and "
+           "{raise, close(), KeyboardInterrupt}, also given as partial objects / callable instances / bound methods; refused/rejected; bursts of several frames in one segment followed by silence on plain and "
            "TLS transports. Real run_forever in virtual time; callback trace compared with the extracted model, with the expected callbacks "
            "computed from the extracted Spec.items, and callback times with arrival times",
     "C14": "the same scenario families judged for: on_close exactly once and last, close arguments, return value, released transports and "
            "threads; plus second runs on the same object and close() from a second thread at 40 (400) virtual instants",
     "C15": "all sequences of 1..3 (5) connection outcomes {refused, rejected, end of stream, reset after traffic, ping timeout, server close, "
            "protocol error} followed by a connection the server closes, reconnect interval 2 (1, 3), with and without on_reconnect; close() "
-           "from callbacks; built-in and simulated external dispatcher. Judged: attempt count and times, no on_close in between, one live "
+           "from callbacks, and from a second thread during a connection / at the loss / during the reconnect wait (no attempt afterwards); built-in and simulated external dispatcher. Judged: attempt count and times, no on_close in between, one live "
            "transport / ping thread, on_reconnect vs on_open; compared with the extracted model",
 }
 
@@ -566,6 +571,45 @@ def closer_threads(ctx, T, rng):
                     return
 
 
+def close_during_wait(ctx, T):
+    """The application's own close() from a second thread at any point of a run with reconnect set -- during a connection, at the
+    instant of a loss, in the middle of the wait for the next attempt, just before it: no connection attempt starts after it, and
+    (built-in loop) the run returns with exactly one on_close.  Judged directly (the model's close() comes from callbacks)."""
+    from sim.sock import server_frame
+    allret = {c: "ret" for c in CBS}
+    text, close = server_frame(1, b"one").hex(), server_frame(8, b"\x03\xe8").hex()
+    firsts = {"eof": {"events": [[0.5, "D", text], [1.0, "EOF"]]}, "reset": {"events": [[0.5, "D", text], [1.0, "R"]]}, "refused": {"refuse": True},
+              "rejected": {"status": 503}}
+    second = {"events": [[0.5, "D", server_frame(1, b"two").hex()], [5.0, "D", close]]}
+    for kind, first in firsts.items():
+        lost = 1.0 if "events" in first else 0.0
+        for R in (2, 3):
+            for ext in (False, True):
+                for t in (0.25, lost, lost + 0.125, lost + R / 2, lost + R - 0.125):
+                    if t == 0.25 and lost == 0.0 or t <= 0:
+                        continue
+                    for tie in (["closer"], ["main"]):
+                        sim = {"scheme": "ws", "callbacks": dict(allret), "attempts": [dict(first), dict(second), dict(second)], "args": {"reconnect": R},
+                               "closer": [t], "tie": tie, "runs": 1, "custom_dispatcher": ext}
+                        res = run_app(sim)
+                        names = [e[1] for e in res["trace"] if e[1] not in ("returned", "closer-calls-close")]
+                        tc = next((e[0] for e in res["trace"] if e[1] == "closer-calls-close"), None)
+                        late = [a for a in res["attempts"] if tc is not None and a > tc + 1e-9]
+                        T.case(("close-during-wait", kind, R, ext, t, tie[0]), nontrivial=True, bucket="close-during-reconnect-wait",
+                               sample={"first": kind, "reconnect": R, "external": ext, "close_at": t, "attempts": res["attempts"], "callbacks": names})
+                        pub = {"kind": "close-during-wait", "sim": sim}
+                        if late:
+                            T.fail("spec", pub, f"no connection attempt after the application's close() at t={tc}", f"attempts at {res['attempts']}, callbacks {names}",
+                                   {"site": "reconnect", "cls": "attempt-after-user-close"},
+                                   what=f"the application called close() at t={tc} (first connection: {kind}, reconnect={R}); a further connection attempt started at t={late[0]}")
+                            return
+                        if not ext and (res.get("stuck") or names.count("close") != 1 or names[-1] != "close" or res["threads_alive_at_end"]):
+                            T.fail("spec", pub, "the run returns, one on_close, last", f"{res['returns']} {names} stuck={res.get('stuck')} alive={res['threads_alive_at_end']}"[:300],
+                                   {"site": "reconnect", "cls": "close-during-wait-not-clean"},
+                                   what="close() during a run with reconnect set did not end the run cleanly")
+                            return
+
+
 def multi_runs(ctx, T, rng):
     """several runs of ONE WebSocketApp object, each ended in its own way: on_close of every run gets that run's own close code and
     reason (None, None when the run did not end by a server close frame), nothing carried over from an earlier run"""
@@ -668,6 +712,10 @@ def replay(ctx, sc):
     if sc.get("kind") == "later-run-keepalive":
         T = Tally()
         later_run_keepalive(ctx, T)
+        return T.failures[0] if T.failures else None
+    if sc.get("kind") == "close-during-wait":
+        T = Tally()
+        close_during_wait(ctx, T)
         return T.failures[0] if T.failures else None
     if sc.get("kind") in ("closer", "burst2") and "sim" in sc:
         res = run_app(sc["sim"])
